@@ -54,7 +54,7 @@ def rounds():
     for d in glob.glob(V + '/refactors/C*-*'):
         if not os.path.isdir(d) or not os.path.exists(d + '/meta.json'): continue
         m = json.load(open(d + '/meta.json'))
-        if m.get('same_patch_as'): continue
+        if m.get('same_patch_as') or m.get('own_example'): continue
         r = m.get('round', 1); a = 1 if m.get('first_run_alarm') else 0
         R[r][0] += 1; R[r][1] += a
         n = int(os.path.basename(d).split('-')[1]) % 10
